@@ -378,6 +378,7 @@ Inductive op :=
 | ODeeper (d : nat)
 | ORet (rets : list (list Z))
 | ODestroy (k : nat)
+| OClose (k : nat)    (* a <close> variable holding the handle goes out of scope: coroutine:__close() *)
 | OGc
 | OEnd (rets : list (list Z)) (nslots : nat).
 
@@ -508,6 +509,12 @@ Definition step (o : op) (s : state) : state * list line :=
     match co_destroy k s with
     | (CPanic m, s1) => (set_halted s1 true, [panic_line w s1 m])
     | (r, s1) => (s1, [mkLine w d "destroy" (cres_fields r)])
+    end
+  | OClose k =>
+    (* coroutine:__close() calls self:destroy() and drops the result *)
+    match co_destroy k s with
+    | (CPanic m, s1) => (set_halted s1 true, [panic_line w s1 m])
+    | (_, s1) => (s1, [mkLine w d "close" []])
     end
   | OGc => (s, [mkLine w d "gc" []])
   | OEnd rets n =>
